@@ -712,6 +712,8 @@ structure ExportSpec (win : String → Nat) (g0 g : Graph) : Prop where
   plain : ∀ i, (g.nd i).isCombine = false
   /-- a node that has arguments is there -/
   userLive : ∀ i j, i ∈ (g.nd j).args → (g.nd j).live = true
+  /-- a slot that is not live is the erased slot -/
+  deadE : ∀ i, (g.nd i).live = false → g.nd i = Node.E
   /-- every surviving node other than placeholders / output is used by a surviving node -/
   used : ∀ j, (g.nd j).live = true → (g.nd j).impure = true ∨ hasUsers g j = true
   /-- the branch outputs of every combiner, other than the winner's, are gone -/
@@ -732,7 +734,17 @@ theorem exportGraph_spec {win : String → Nat} {g0 g : Graph} (hwf : WF g0)
   have hcore := hinv.toCore.dce
   have hssa1 : SSA g1 := hinv.toCore.ssa hwf.1
   refine { len := hcore.len, shape := ?shape, closed := hcore.closed, plain := ?plain,
-           userLive := ?userLive, used := ?used, gone := ?gone, lost := ?lost }
+           userLive := ?userLive, deadE := ?deadE, used := ?used, gone := ?gone, lost := ?lost }
+  case deadE =>
+    intro i hd
+    rcases hcore.shape i with hE | hsh
+    · exact hE
+    · by_cases hi : i < g0.length
+      · rw [hsh] at hd
+        have := hwf.2 i hi
+        simp [Node.live] at hd this
+        exact absurd hd this
+      · exact nd_of_ge _ i (by rw [hcore.len]; omega)
   case lost =>
     intro n hcn a0 ha0 hne
     have hn : n < g0.length := by
@@ -1352,5 +1364,576 @@ theorem mem_targetList {shared : Bool} {g : Graph} {l : Leaf} (h : l ∈ targetL
   split at h
   · exact mem_uniq h
   · exact h
+
+
+section exportcost
+open Finset
+/-! ## leaf modules of a graph, by node number -/
+
+theorem zipIdx_eq_range (g : Graph) :
+    g.zipIdx = (List.range g.length).map fun i => (g.nd i, i) := by
+  apply List.ext_getElem
+  · simp
+  · intro i h1 h2
+    simp only [List.getElem_zipIdx, List.getElem_map, List.getElem_range, Nat.zero_add]
+    have hi : i < g.length := by simpa using h1
+    unfold Graph.nd
+    rw [getD_lt g i _ hi]
+
+theorem leafModules_eq_range (g : Graph) :
+    leafModules g = (List.range g.length).filterMap fun i => leafOf (g.nd i, i) := by
+  unfold leafModules
+  rw [zipIdx_eq_range, List.filterMap_map]
+  rfl
+
+theorem leafOf_node {nd : Node} {i : Nat} {l : Leaf} (h : leafOf (nd, i) = some l) : l.node = i := by
+  unfold leafOf at h
+  split at h <;> first | (injection h with h; rw [← h]) | cases h
+
+theorem mem_leafModules {g : Graph} {l : Leaf} (h : l ∈ leafModules g) :
+    leafOf (g.nd l.node, l.node) = some l := by
+  rw [leafModules_eq_range] at h
+  simp only [List.mem_filterMap, List.mem_range] at h
+  obtain ⟨i, -, hi⟩ := h
+  have := leafOf_node hi
+  rw [this]; exact hi
+
+/-- the leaf modules of the exported graph are the leaf modules of the SuperNet whose node survived -/
+theorem leafModules_export {win : String → Nat} {g0 g : Graph} (sp : ExportSpec win g0 g) :
+    leafModules g = (leafModules g0).filter fun l => (g.nd l.node).live := by
+  rw [leafModules_eq_range, leafModules_eq_range, List.filter_filterMap, sp.len]
+  apply List.filterMap_congr
+  intro i _
+  by_cases hl : (g.nd i).live = true
+  · have hnode := sp.node_eq i hl
+    have hplain := sp.plain i
+    rw [hnode] at hplain ⊢
+    cases hop : (g0.nd i).op with
+    | leaf t =>
+      cases t with
+      | mk k tgt =>
+        cases k <;> simp [leafOf, hop, Option.filter, hnode] <;> rw [hnode] at hl <;> simpa [hop] using hl
+    | combine c => simp [Node.isCombine, hop] at hplain
+    | input k => simp [leafOf, hop]
+    | output => simp [leafOf, hop]
+    | erased => simp [leafOf, hop]
+  · have hd : (g.nd i).live = false := by simpa using hl
+    rw [sp.deadE i hd]
+    have hE : leafOf (Node.E, i) = none := rfl
+    rw [hE]
+    cases h0 : leafOf (g0.nd i, i) with
+    | none => rfl
+    | some l =>
+      have := leafOf_node h0
+      simp [Option.filter, this, hd]
+
+/-! ## sums over lists -/
+section sums
+variable {K : Type} [CommSemiring K]
+
+theorem sum_filter_eq_sum_ite {α : Type} (p : α → Bool) (f : α → K) (l : List α) :
+    ((l.filter p).map f).sum = (l.map fun x => if p x then f x else 0).sum := by
+  induction l with
+  | nil => rfl
+  | cons x l ih =>
+    simp only [List.filter_cons, List.map_cons, List.sum_cons]
+    split <;> simp [ih]
+
+theorem sum_map_add' {α : Type} (f g : α → K) (l : List α) :
+    (l.map fun x => f x + g x).sum = (l.map f).sum + (l.map g).sum := by
+  induction l with
+  | nil => simp
+  | cons x l ih => simp only [List.map_cons, List.sum_cons, ih]; exact add_add_add_comm _ _ _ _
+
+/-- regrouping a filtered sum by a key: every element selected by at most one key of `S` -/
+theorem sum_fiberwise {α κ : Type} [DecidableEq κ] (S : Finset κ) (W : κ → α → Bool) (f : α → K)
+    (l : List α) (huniq : ∀ x ∈ l, ∀ n ∈ S, ∀ m ∈ S, W n x = true → W m x = true → n = m) :
+    (l.map fun x => if (∃ n ∈ S, W n x = true) then f x else 0).sum =
+      ∑ n ∈ S, ((l.filter (W n)).map f).sum := by
+  induction l with
+  | nil => simp
+  | cons x l ih =>
+    have ih' := ih (fun y hy => huniq y (List.mem_cons_of_mem _ hy))
+    simp only [List.map_cons, List.sum_cons, ih', List.filter_cons]
+    have hsplit : ∀ n, (List.map f (if W n x = true then x :: l.filter (W n) else l.filter (W n))).sum =
+        (if W n x = true then f x else 0) + ((l.filter (W n)).map f).sum := by
+      intro n; split <;> simp
+    rw [Finset.sum_congr rfl (fun n _ => hsplit n), Finset.sum_add_distrib]
+    congr 1
+    by_cases hex : ∃ n ∈ S, W n x = true
+    · obtain ⟨n0, hn0, hw0⟩ := hex
+      rw [if_pos ⟨n0, hn0, hw0⟩]
+      rw [Finset.sum_eq_single n0]
+      · simp [hw0]
+      · intro m hm hne
+        by_cases hwm : W m x = true
+        · exact absurd (huniq x (List.mem_cons_self ..) m hm n0 hn0 hwm hw0) hne
+        · simp [hwm]
+      · intro h; exact absurd hn0 h
+    · rw [if_neg hex]
+      symm
+      apply Finset.sum_eq_zero
+      intro n hn
+      have : ¬ W n x = true := fun h => hex ⟨n, hn, h⟩
+      simp [this]
+
+end sums
+
+
+/-! ## more about `uniquify_leaf_modules` -/
+
+theorem uniqFrom_not_seen : ∀ (L : List Leaf) (seen : List String) (l : Leaf),
+    l ∈ uniqFrom seen L → l.name ∉ seen
+  | [], _, _, h => by simp [uniqFrom] at h
+  | x :: L, seen, l, h => by
+    unfold uniqFrom at h
+    split at h
+    · exact uniqFrom_not_seen L seen l h
+    · rename_i hx
+      rcases List.mem_cons.1 h with h1 | h1
+      · rw [h1]; simpa using hx
+      · have := uniqFrom_not_seen L _ l h1
+        intro hc; exact this (List.mem_cons_of_mem _ hc)
+
+theorem nodup_uniqFrom : ∀ (L : List Leaf) (seen : List String),
+    ((uniqFrom seen L).map (·.name)).Nodup
+  | [], _ => by simp [uniqFrom]
+  | x :: L, seen => by
+    unfold uniqFrom
+    split
+    · exact nodup_uniqFrom L seen
+    · rw [List.map_cons, List.nodup_cons]
+      refine ⟨?_, nodup_uniqFrom L _⟩
+      intro hmem
+      obtain ⟨l, hl, hname⟩ := List.mem_map.1 hmem
+      have := uniqFrom_not_seen L _ l hl
+      exact this (by rw [hname]; exact List.mem_cons_self ..)
+
+theorem name_mem_uniqFrom : ∀ (L : List Leaf) (seen : List String) (l : Leaf),
+    l ∈ L → l.name ∉ seen → l.name ∈ (uniqFrom seen L).map (·.name)
+  | [], _, _, h, _ => by cases h
+  | x :: L, seen, l, h, hs => by
+    unfold uniqFrom
+    split
+    · rename_i hx
+      have hx' : x.name ∈ seen := by simpa using hx
+      rcases List.mem_cons.1 h with h1 | h1
+      · rw [h1] at hs; exact absurd hx' hs
+      · exact name_mem_uniqFrom L seen l h1 hs
+    · rw [List.map_cons]
+      by_cases hn : l.name = x.name
+      · rw [hn]; exact List.mem_cons_self ..
+      · rcases List.mem_cons.1 h with h1 | h1
+        · rw [h1] at hn; exact absurd rfl hn
+        · apply List.mem_cons_of_mem
+          apply name_mem_uniqFrom L _ l h1
+          intro hc
+          rcases List.mem_cons.1 hc with h2 | h2
+          · exact hn h2
+          · exact hs h2
+
+theorem toFinset_names_uniq (L : List Leaf) :
+    ((uniq L).map (·.name)).toFinset = (L.map (·.name)).toFinset := by
+  ext t
+  simp only [List.mem_toFinset, List.mem_map]
+  constructor
+  · rintro ⟨l, hl, rfl⟩; exact ⟨l, mem_uniq hl, rfl⟩
+  · rintro ⟨l, hl, rfl⟩
+    exact List.mem_map.1 (name_mem_uniqFrom L [] l hl (by simp))
+
+section counting
+variable {K : Type} [CommSemiring K]
+
+/-- a sum of a name-invariant quantity over call sites, every name occurring `k` times, is `k` times
+the sum over unique names -/
+theorem sum_eq_count_smul_uniq (L : List Leaf) (f : Leaf → K) (k : Nat)
+    (hinv : ∀ l ∈ L, ∀ l' ∈ L, l.name = l'.name → f l = f l')
+    (hcount : ∀ l ∈ L, (L.map (·.name)).count l.name = k) :
+    (L.map f).sum = k • ((uniq L).map f).sum := by
+  classical
+  let F : String → K := fun t =>
+    match L.find? (fun l => l.name == t) with
+    | some l => f l
+    | none => 0
+  have hF : ∀ l ∈ L, f l = F l.name := by
+    intro l hl
+    simp only [F]
+    cases hfind : L.find? (fun l' => l'.name == l.name) with
+    | none =>
+      have := List.find?_eq_none.1 hfind l hl
+      simp at this
+    | some l0 =>
+      have h1 := List.find?_some hfind
+      have h2 := List.mem_of_find?_eq_some hfind
+      simp only [beq_iff_eq] at h1
+      exact (hinv l0 h2 l hl h1).symm
+  have e1 : (L.map f).sum = ((L.map (·.name)).map F).sum := by
+    rw [List.map_map]; congr 1; apply List.map_congr_left; intro l hl; exact hF l hl
+  have e2 : ((uniq L).map f).sum = (((uniq L).map (·.name)).map F).sum := by
+    rw [List.map_map]; congr 1; apply List.map_congr_left; intro l hl; exact hF l (mem_uniq hl)
+  have hnd : ((uniq L).map (·.name)).Nodup := nodup_uniqFrom L []
+  rw [e1, e2, Finset.sum_list_map_count, ← List.sum_toFinset F hnd,
+    toFinset_names_uniq, ← Finset.sum_nsmul]
+  apply Finset.sum_congr rfl
+  intro t ht
+  obtain ⟨l, hl, rfl⟩ := List.mem_map.1 (List.mem_toFinset.1 ht)
+  rw [hcount l hl]
+
+end counting
+
+
+theorem uniqFrom_congr_seen : ∀ (M : List Leaf) (seen seen' : List String),
+    (∀ l ∈ M, l.name ∈ seen ↔ l.name ∈ seen') → uniqFrom seen M = uniqFrom seen' M
+  | [], _, _, _ => rfl
+  | y :: M, seen, seen', h => by
+    unfold uniqFrom
+    have hy := h y (List.mem_cons_self ..)
+    have hM : ∀ l ∈ M, l.name ∈ seen ↔ l.name ∈ seen' := fun l hl => h l (List.mem_cons_of_mem _ hl)
+    by_cases hs : y.name ∈ seen
+    · have hs' := hy.1 hs
+      simp only [List.contains_iff_mem, hs, hs', if_true]
+      exact uniqFrom_congr_seen M seen seen' hM
+    · have hs' : y.name ∉ seen' := fun hc => hs (hy.2 hc)
+      simp only [List.contains_iff_mem, hs, hs', if_false]
+      congr 1
+      apply uniqFrom_congr_seen
+      intro l hl
+      simp only [List.mem_cons]
+      rw [hM l hl]
+
+theorem uniqFrom_cons (seen : List String) (x : Leaf) (L : List Leaf) :
+    uniqFrom seen (x :: L) =
+      if seen.contains x.name then uniqFrom seen L else x :: uniqFrom (x.name :: seen) L := by
+  rw [uniqFrom]
+
+/-- uniquifying commutes with a filter that only looks at names -/
+theorem uniqFrom_filter (P : Leaf → Bool) : ∀ (L : List Leaf) (seen : List String),
+    (∀ l ∈ L, ∀ l' ∈ L, l.name = l'.name → P l = P l') →
+    uniqFrom seen (L.filter P) = (uniqFrom seen L).filter P
+  | [], _, _ => rfl
+  | x :: L, seen, hinv => by
+    have hinv' : ∀ l ∈ L, ∀ l' ∈ L, l.name = l'.name → P l = P l' :=
+      fun l hl l' hl' => hinv l (List.mem_cons_of_mem _ hl) l' (List.mem_cons_of_mem _ hl')
+    by_cases hP : P x = true
+    · rw [List.filter_cons_of_pos hP, uniqFrom_cons, uniqFrom_cons]
+      split
+      · exact uniqFrom_filter P L seen hinv'
+      · rw [List.filter_cons_of_pos hP, uniqFrom_filter P L _ hinv']
+    · rw [List.filter_cons_of_neg hP, uniqFrom_cons]
+      split
+      · exact uniqFrom_filter P L seen hinv'
+      · rw [List.filter_cons_of_neg hP, ← uniqFrom_filter P L _ hinv']
+        apply uniqFrom_congr_seen
+        intro l hl
+        obtain ⟨hlL, hPl⟩ := List.mem_filter.1 hl
+        have hne : l.name ≠ x.name := by
+          intro hn
+          have := hinv l (List.mem_cons_of_mem _ hlL) x (List.mem_cons_self ..) hn
+          rw [hPl] at this; exact hP this.symm
+        simp [hne]
+
+theorem uniq_filter (P : Leaf → Bool) (L : List Leaf)
+    (hinv : ∀ l ∈ L, ∀ l' ∈ L, l.name = l'.name → P l = P l') :
+    uniq (L.filter P) = (uniq L).filter P := uniqFrom_filter P L [] hinv
+
+/-! ## hard cost = cost of the exported network -/
+
+/-- what the cost code reads off a leaf's name is a function of the name -/
+theorem leaf_fields {g : Graph} {l : Leaf} (h : l ∈ leafModules g) :
+    l.inBranch = hasSub l.name "sn_branches" ∧ l.br = if l.isComb then none else branchOf l.name := by
+  have := mem_leafModules h
+  unfold leafOf at this
+  split at this
+  · injection this with this; rw [← this]; exact ⟨rfl, rfl⟩
+  · injection this with this; rw [← this]; exact ⟨rfl, rfl⟩
+  · cases this
+
+
+
+
+/-- hypotheses of "hard cost = cost of the exported network" that concern names only -/
+structure NamesSane (w : String → Nat) (g0 g : Graph) : Prop where
+  /-- export keeps, by name, the layers outside choice blocks and the winners' layers (what C03
+  establishes and `export_keeps_exactly` characterises) -/
+  kept : ∀ l ∈ leafModules g0, (g.nd l.node).live = keptByName w (leafModules g0) l
+  /-- a module is not called both as a combiner and as a layer -/
+  nameKind : ∀ l ∈ leafModules g0, ∀ l' ∈ leafModules g0, l.name = l'.name → l.isComb = l'.isComb
+  /-- a leaf with a branch tag has `sn_branches` in its name -/
+  brIn : ∀ l ∈ leafModules g0, l.br ≠ none → l.inBranch = true
+  /-- different `SuperNetModule`s have different names -/
+  parents : ∀ c ∈ leafModules g0, c.isComb = true → ∀ c' ∈ leafModules g0, c'.isComb = true →
+    parentOf c.name = parentOf c'.name → c.name = c'.name
+
+/-- … and, for per-invocation metrics, call sites -/
+structure SitesSane {K : Type} (w : String → Nat) (u : Nat → K) (g0 : Graph) : Prop where
+  /-- every layer of a winning branch is called once per call site of its block -/
+  sites : ∀ c ∈ leafModules g0, c.isComb = true → ∀ l ∈ leafModules g0,
+    winnerLeaf w c.name l = true → callSites (leafModules g0) l.name = callSites (leafModules g0) c.name
+  /-- **all call sites of a module have the same output shape** (as far as the metric can tell) -/
+  sameShape : ∀ l ∈ leafModules g0, ∀ l' ∈ leafModules g0, l.name = l'.name → u l.node = u l'.node
+
+theorem count_filter_names (ls : List Leaf) (P : Leaf → Bool)
+    (hinv : ∀ l ∈ ls, ∀ l' ∈ ls, l.name = l'.name → P l = P l') (l : Leaf) (hl : l ∈ ls) (hP : P l = true) :
+    ((ls.filter P).map (·.name)).count l.name = (ls.map (·.name)).count l.name := by
+  rw [List.count_eq_countP, List.count_eq_countP, List.countP_map, List.countP_map, List.countP_filter]
+  apply List.countP_congr
+  intro x hx
+  simp only [Function.comp, Bool.and_eq_true, beq_iff_eq]
+  constructor
+  · intro h; exact h.1
+  · intro h; exact ⟨h, by rw [hinv x hx l hl h]; exact hP⟩
+
+
+theorem winnerLeaf_name_inv {w : String → Nat} {g0 g : Graph} (hs : NamesSane w g0 g) (n : String) :
+    ∀ l ∈ leafModules g0, ∀ l' ∈ leafModules g0, l.name = l'.name →
+      winnerLeaf w n l = winnerLeaf w n l' := by
+  intro l hl l' hl' hn
+  unfold winnerLeaf
+  rw [(leaf_fields hl).2, (leaf_fields hl').2, hs.nameKind l hl l' hl' hn, hn]
+
+theorem keptByName_name_inv {w : String → Nat} {g0 g : Graph} (hs : NamesSane w g0 g) :
+    ∀ l ∈ leafModules g0, ∀ l' ∈ leafModules g0, l.name = l'.name →
+      keptByName w (leafModules g0) l = keptByName w (leafModules g0) l' := by
+  intro l hl l' hl' hn
+  unfold keptByName
+  rw [(leaf_fields hl).2, (leaf_fields hl').2, (leaf_fields hl).1, (leaf_fields hl').1,
+    hs.nameKind l hl l' hl' hn, hn]
+
+theorem count_combSites {w : String → Nat} {g0 g : Graph} (hs : NamesSane w g0 g)
+    (c : Leaf) (hc : c ∈ leafModules g0) (hcc : c.isComb = true) :
+    (combSites (leafModules g0)).count c.name = callSites (leafModules g0) c.name := by
+  unfold combSites callSites
+  exact count_filter_names _ _ (fun l hl l' hl' hn => hs.nameKind l hl l' hl' hn) c hc hcc
+
+section main
+variable {K : Type} [CommSemiring K]
+
+theorem branchCost_eq_sum (u : Nat → K) (ls : List Leaf) (parent : List (List Char)) (i : Nat) :
+    branchCost u ls parent i = ((branchLeaves ls parent i).map fun l => u l.node).sum := by
+  unfold branchCost
+  rw [foldl_add_eq_sum, zero_add]
+
+/-- the winners' layers cost, over all call sites, what the combiners charge under hard selection -/
+theorem winners_cost {w : String → Nat} {u : Nat → K} {g0 g : Graph} (hs : NamesSane w g0 g)
+    (hu : SitesSane w u g0) (c : Leaf) (hc : c ∈ leafModules g0) (hcc : c.isComb = true) :
+    (((leafModules g0).filter (winnerLeaf w c.name)).map fun l => u l.node).sum =
+      callSites (leafModules g0) c.name • branchCost u (leafModules g0) (parentOf c.name) (w c.name) := by
+  rw [branchCost_eq_sum]
+  have hL : ∀ l ∈ (leafModules g0).filter (winnerLeaf w c.name), l ∈ leafModules g0 ∧
+      winnerLeaf w c.name l = true := fun l hl => List.mem_filter.1 hl
+  exact sum_eq_count_smul_uniq _ (fun l => u l.node) _
+    (fun l hl l' hl' hn => hu.sameShape l (hL l hl).1 l' (hL l' hl').1 hn)
+    (fun l hl => by
+      rw [count_filter_names _ _ (winnerLeaf_name_inv hs c.name) l (hL l hl).1 (hL l hl).2]
+      exact hu.sites c hc hcc l (hL l hl).1 (hL l hl).2)
+
+/-- fixed part / block part of one entry -/
+def fixedPart (u : Nat → K) (l : Leaf) : K := if (!l.isComb && !l.inBranch) = true then u l.node else 0
+def blockPart (w : String → Nat) (u : Nat → K) (ls : List Leaf) (l : Leaf) : K :=
+  if l.isComb = true then branchCost u ls (parentOf l.name) (w l.name) else 0
+def winnerPart (w : String → Nat) (u : Nat → K) (ls : List Leaf) (l : Leaf) : K :=
+  if (∃ n ∈ (combSites ls).toFinset, (winnerLeaf w n l && l.inBranch) = true) then u l.node else 0
+
+theorem contribHard_split (w : String → Nat) (u : Nat → K) (ls : List Leaf) (l : Leaf) :
+    contribHard true w u ls l = fixedPart u l + blockPart w u ls l := by
+  simp only [contribHard, fixedPart, blockPart]
+  cases l.isComb <;> cases l.inBranch <;> simp
+
+theorem kept_split (w : String → Nat) (u : Nat → K) (ls : List Leaf) (l : Leaf) :
+    (if keptByName w ls l = true then u l.node else 0) = fixedPart u l + winnerPart w u ls l := by
+  classical
+  simp only [fixedPart, winnerPart, keptByName]
+  have hex : (∃ n ∈ (combSites ls).toFinset, (winnerLeaf w n l && l.inBranch) = true) ↔
+      (l.isComb = false ∧ l.inBranch = true ∧
+        (ls.any fun c => c.isComb && l.br == some (parentOf c.name, w c.name)) = true) := by
+    simp only [combSites, List.mem_toFinset, List.mem_map, List.mem_filter, winnerLeaf,
+      Bool.and_eq_true, Bool.not_eq_true', beq_iff_eq, List.any_eq_true]
+    constructor
+    · rintro ⟨n, ⟨c, ⟨hc, hcc⟩, rfl⟩, ⟨h3, h4⟩, h5⟩
+      exact ⟨h3, h5, c, hc, hcc, h4⟩
+    · rintro ⟨h3, h5, c, hc, hcc, h4⟩
+      exact ⟨c.name, ⟨c, ⟨hc, hcc⟩, rfl⟩, ⟨h3, h4⟩, h5⟩
+  by_cases hc : l.isComb = true
+  · have : ¬ (∃ n ∈ (combSites ls).toFinset, (winnerLeaf w n l && l.inBranch) = true) := by
+      rw [hex]; intro h; rw [h.1] at hc; cases hc
+    simp only [if_neg this]
+    simp [hc]
+  · have hc' : l.isComb = false := by simpa using hc
+    by_cases hb : l.inBranch = true
+    · by_cases hany : (ls.any fun c => c.isComb && l.br == some (parentOf c.name, w c.name)) = true
+      · have := hex.2 ⟨hc', hb, hany⟩
+        simp only [if_pos this]
+        simp [hc', hb, hany]
+      · have : ¬ (∃ n ∈ (combSites ls).toFinset, (winnerLeaf w n l && l.inBranch) = true) := by
+          rw [hex]; intro h; exact hany h.2.2
+        simp only [if_neg this]
+        simp [hc', hb, hany]
+    · have hb' : l.inBranch = false := by simpa using hb
+      have : ¬ (∃ n ∈ (combSites ls).toFinset, (winnerLeaf w n l && l.inBranch) = true) := by
+        rw [hex]; intro h; rw [h.2.1] at hb'; cases hb'
+      simp only [if_neg this]
+      simp [hc', hb']
+
+/-- regrouping the winners' part by combiner, over any sub-list of the leaves -/
+theorem winnerPart_sum {w : String → Nat} {g0 g : Graph} (hs : NamesSane w g0 g) (u : Nat → K)
+    (L : List Leaf) :
+    (L.map (winnerPart w u (leafModules g0))).sum =
+      ∑ n ∈ (combSites (leafModules g0)).toFinset,
+        ((L.filter fun l => winnerLeaf w n l && l.inBranch).map fun l => u l.node).sum := by
+  classical
+  unfold winnerPart
+  apply sum_fiberwise
+  intro l _ n hn m hm hwn hwm
+  simp only [combSites, List.mem_toFinset, List.mem_map, List.mem_filter] at hn hm
+  obtain ⟨c, ⟨hc, hcc⟩, rfl⟩ := hn
+  obtain ⟨c', ⟨hc', hcc'⟩, rfl⟩ := hm
+  simp only [winnerLeaf, Bool.and_eq_true, Bool.not_eq_true', beq_iff_eq] at hwn hwm
+  have : some (parentOf c.name, w c.name) = some (parentOf c'.name, w c'.name) := by
+    rw [← hwn.1.2, ← hwm.1.2]
+  injection this with this
+  injection this with hp _
+  exact hs.parents c hc hcc c' hc' hcc' hp
+
+theorem filter_winner_inBranch {w : String → Nat} {g0 g : Graph} (hs : NamesSane w g0 g) (n : String)
+    (L : List Leaf) (hL : ∀ l ∈ L, l ∈ leafModules g0) :
+    (L.filter fun l => winnerLeaf w n l && l.inBranch) = L.filter (winnerLeaf w n) := by
+  apply List.filter_congr
+  intro l hl
+  by_cases hwl : winnerLeaf w n l = true
+  · have : l.br ≠ none := by
+      simp only [winnerLeaf, Bool.and_eq_true, beq_iff_eq] at hwl
+      rw [hwl.2]; simp
+    simp [hwl, hs.brIn l (hL l hl) this]
+  · simp [hwl]
+
+/-- **hard cost = cost of the exported network, per-invocation metric** -/
+theorem hard_eq_export_per_invocation {w : String → Nat} {u : Nat → K} {g0 g : Graph}
+    (sp : ExportSpec w g0 g)
+    (hsel : SelectionOk g0 w) (hs : NamesSane w g0 g) (hu : SitesSane w u g0) :
+    snCost false true (hardTheta g0 w) u g0 = plainCost false u g := by
+  classical
+  set ls := leafModules g0 with hls
+  rw [snCost_eq_sum, plainCost_eq_sum]
+  have htl : ∀ g', targetList false g' = leafModules g' := fun g' => by simp [targetList]
+  rw [htl, htl, leafModules_export sp, ← hls]
+  have hfilter : ls.filter (fun l => (g.nd l.node).live) = ls.filter (keptByName w ls) := by
+    apply List.filter_congr
+    intro l hl; exact hs.kept l hl
+  rw [hfilter, sum_filter_eq_sum_ite]
+  have hL : (ls.map (contrib true (hardTheta g0 w) u ls)).sum =
+      (ls.map fun l => fixedPart u l + blockPart w u ls l).sum := by
+    congr 1; apply List.map_congr_left; intro l hl
+    rw [contrib_hard hsel true u l hl, contribHard_split]
+  have hR : (ls.map fun l => if keptByName w ls l = true then u l.node else 0).sum =
+      (ls.map fun l => fixedPart u l + winnerPart w u ls l).sum := by
+    congr 1; apply List.map_congr_left; intro l _; exact kept_split w u ls l
+  rw [hL, hR, sum_map_add', sum_map_add']
+  congr 1
+  have hB : (ls.map (blockPart w u ls)).sum =
+      ((combSites ls).map fun n => branchCost u ls (parentOf n) (w n)).sum := by
+    unfold combSites blockPart
+    rw [List.map_map, ← sum_filter_eq_sum_ite]
+    rfl
+  rw [hB, Finset.sum_list_map_count, winnerPart_sum hs u ls]
+  apply Finset.sum_congr rfl
+  intro n hn
+  simp only [combSites, List.mem_toFinset, List.mem_map, List.mem_filter] at hn
+  obtain ⟨c, ⟨hc, hcc⟩, rfl⟩ := hn
+  rw [filter_winner_inBranch hs c.name ls (fun l hl => hl), winners_cost hs hu c hc hcc,
+    count_combSites hs c hc hcc]
+
+/-- **hard cost = cost of the exported network, shared metric** (no hypothesis on shapes or call
+sites: every module is charged once, at its first call site, on both sides) -/
+theorem hard_eq_export_shared {w : String → Nat} {u : Nat → K} {g0 g : Graph}
+    (sp : ExportSpec w g0 g)
+    (hsel : SelectionOk g0 w) (hs : NamesSane w g0 g) :
+    snCost true true (hardTheta g0 w) u g0 = plainCost true u g := by
+  classical
+  set ls := leafModules g0 with hls
+  rw [snCost_eq_sum, plainCost_eq_sum]
+  have htl : ∀ g', targetList true g' = uniq (leafModules g') := fun g' => by simp [targetList]
+  rw [htl, htl, leafModules_export sp, ← hls]
+  have hfilter : ls.filter (fun l => (g.nd l.node).live) = ls.filter (keptByName w ls) := by
+    apply List.filter_congr
+    intro l hl; exact hs.kept l hl
+  rw [hfilter, uniq_filter _ ls (keptByName_name_inv hs), sum_filter_eq_sum_ite]
+  have hL : ((uniq ls).map (contrib true (hardTheta g0 w) u ls)).sum =
+      ((uniq ls).map fun l => fixedPart u l + blockPart w u ls l).sum := by
+    congr 1; apply List.map_congr_left; intro l hl
+    rw [contrib_hard hsel true u l (mem_uniq hl), contribHard_split]
+  have hR : ((uniq ls).map fun l => if keptByName w ls l = true then u l.node else 0).sum =
+      ((uniq ls).map fun l => fixedPart u l + winnerPart w u ls l).sum := by
+    congr 1; apply List.map_congr_left; intro l _; exact kept_split w u ls l
+  rw [hL, hR, sum_map_add', sum_map_add']
+  congr 1
+  -- combiners, once each
+  have hcomb : (uniq ls).filter (·.isComb) = uniq (ls.filter (·.isComb)) :=
+    (uniq_filter _ ls (fun l hl l' hl' hn => hs.nameKind l hl l' hl' hn)).symm
+  have hB : ((uniq ls).map (blockPart w u ls)).sum =
+      ((((uniq ls).filter (·.isComb)).map (·.name)).map fun n => branchCost u ls (parentOf n) (w n)).sum := by
+    unfold blockPart
+    rw [List.map_map, ← sum_filter_eq_sum_ite]
+    rfl
+  have hnd : (((uniq ls).filter (·.isComb)).map (·.name)).Nodup := by
+    rw [hcomb]; exact nodup_uniqFrom _ []
+  have hset : (((uniq ls).filter (·.isComb)).map (·.name)).toFinset = (combSites ls).toFinset := by
+    rw [hcomb, toFinset_names_uniq]; rfl
+  rw [hB, ← List.sum_toFinset _ hnd, hset, winnerPart_sum hs u (uniq ls)]
+  apply Finset.sum_congr rfl
+  intro n hn
+  simp only [combSites, List.mem_toFinset, List.mem_map, List.mem_filter] at hn
+  obtain ⟨c, ⟨hc, hcc⟩, rfl⟩ := hn
+  rw [filter_winner_inBranch hs c.name (uniq ls) (fun l hl => mem_uniq hl),
+    ← uniq_filter _ ls (winnerLeaf_name_inv hs c.name), branchCost_eq_sum]
+  rfl
+
+end main
+
+
+end exportcost
+
+/-! ## the executable versions of `NamesSane` / `SitesSane` are sound -/
+
+theorem namesSaneB_sound {w : String → Nat} {g0 g : Graph} (h : namesSaneB w g0 g = true) :
+    NamesSane w g0 g := by
+  unfold namesSaneB at h
+  simp only [Bool.and_eq_true, List.all_eq_true, beq_iff_eq, Bool.or_eq_true, bne_iff_ne, ne_eq,
+    Bool.not_eq_true'] at h
+  obtain ⟨⟨⟨h1, h2⟩, h3⟩, h4⟩ := h
+  refine ⟨h1, ?_, ?_, ?_⟩
+  · intro l hl l' hl' hn
+    rcases h2 l hl l' hl' with h | h
+    · exact absurd hn h
+    · exact h
+  · intro l hl hbr
+    rcases h3 l hl with h | h
+    · exact absurd h hbr
+    · exact h
+  · intro c hc hcc c' hc' hcc' hp
+    rcases h4 c hc with h | h
+    · rw [hcc] at h; cases h
+    · rcases h c' hc' with h | h
+      · rcases h with h | h
+        · rw [hcc'] at h; cases h
+        · exact absurd hp h
+      · exact h
+
+theorem sitesSaneB_sound {K : Type} [BEq K] [LawfulBEq K] {w : String → Nat} {u : Nat → K} {g0 : Graph}
+    (h : sitesSaneB w u g0 = true) : SitesSane w u g0 := by
+  unfold sitesSaneB sameUnitCost at h
+  simp only [Bool.and_eq_true, List.all_eq_true, beq_iff_eq, Bool.or_eq_true, bne_iff_ne, ne_eq,
+    Bool.not_eq_true'] at h
+  obtain ⟨h1, h2⟩ := h
+  refine ⟨?_, ?_⟩
+  · intro c hc hcc l hl hw
+    rcases h1 c hc with h | h
+    · rw [hcc] at h; cases h
+    · rcases h l hl with h | h
+      · rw [hw] at h; cases h
+      · exact h
+  · intro l hl l' hl' hn
+    rcases h2 l hl l' hl' with h | h
+    · exact absurd hn h
+    · exact h
 
 end PlinioVerif.SuperNet
